@@ -25,7 +25,8 @@ pub proof fn lemma_C05_a_one_entry_per_name(r: Seq<DefV>, v: AvV, file: PV, n: S
     }
 }
 
-/// H1: the file defines the name at most once
+/// the file defines the name at most once.  NOT a hypothesis of the view/goto agreement any more (F-05a repaired);
+/// still the hypothesis under which resolve_fixture_for_file (first same-file definition, F-05b) agrees
 pub open spec fn at_most_one_in(ds: Seq<DefV>, file: PV) -> bool {
     forall|i: int, j: int| 0 <= i < ds.len() && 0 <= j < ds.len() && (#[trigger] ds[i]).file == file && (#[trigger] ds[j]).file == file ==> i == j
 }
@@ -36,7 +37,7 @@ pub open spec fn import_tests_agree(v: AvV, prov: spec_fn(PV) -> bool, n: Seq<ch
     forall|c: PV| #[trigger] prov(c) == (av_gate(v, c) && (v.imp)(c).contains(n))
 }
 
-/// "first" and "last of maximal line" coincide when at most one element qualifies
+/// "first" and "last of maximal line" coincide when at most one element qualifies (used for resolve_fixture_for_file)
 pub proof fn lemma_unique_first_is_best(ds: Seq<DefV>, p: spec_fn(DefV) -> bool)
     requires forall|i: int, j: int| 0 <= i < ds.len() && 0 <= j < ds.len() && p(#[trigger] ds[i]) && p(#[trigger] ds[j]) ==> i == j
     ensures first_match(ds, p) == best_same(ds, p)
@@ -72,29 +73,41 @@ pub proof fn lemma_walks_agree(ds: Seq<DefV>, dir: PV, v: AvV, prov: spec_fn(PV)
 
 //@tags C05
 /// (b) AGREEMENT of the per-file view with go-to-definition, for one name, under
-///  H1 the file defines the name at most once (otherwise: view = first, goto = last — finding F-05a),
 ///  H3 the two import tests coincide,  H4 the file has a parent directory.
+/// Same file: both take `best_same` — the same-file definition of greatest line, the last such among equals —
+/// however often the file defines the name (H1 "at most once" is gone with the repair of F-05a).
 /// (H2 — both import branches return the first registered definition — is proved, not assumed.)
 pub proof fn lemma_C05_b_view_agrees_with_goto(v: AvV, file: PV, prov: spec_fn(PV) -> bool, n: Seq<char>)
     requires
-        at_most_one_in(bucket(v.defs, n), file),
         import_tests_agree(v, prov, n),
         pv_has_parent(file) && file.len() > 0,
     ensures avail_pick(v, file, n) == op_resolve(bucket(v.defs, n), file, prov, fs_true())
 {
-    let ds = bucket(v.defs, n);
-    let p = p_same(file, fs_true());
-    assert forall|i: int, j: int| 0 <= i < ds.len() && 0 <= j < ds.len() && p(#[trigger] ds[i]) && p(#[trigger] ds[j]) implies i == j by {}
-    lemma_unique_first_is_best(ds, p);
-    lemma_walks_agree(ds, file.drop_last(), v, prov, n);
+    lemma_walks_agree(bucket(v.defs, n), file.drop_last(), v, prov, n);
 }
 
 //@tags C05
-/// the property's sentence for the view: under H1/H3/H4 for every name, the list has exactly one entry per name
+/// (b') the same-file case needs NO hypothesis at all: as soon as the file defines the name — once or several times —
+/// the view's entry and go-to-definition's answer are the same definition: one of the file, of maximal line, and no
+/// same-file definition registered after it reaches that line ("the last redefinition", clause C01.a)
+pub proof fn lemma_C05_b_same_file_redefinitions(v: AvV, file: PV, prov: spec_fn(PV) -> bool, n: Seq<char>, k: int)
+    requires 0 <= k < bucket(v.defs, n).len(), bucket(v.defs, n)[k].file == file,
+    ensures
+        avail_pick(v, file, n) == op_resolve(bucket(v.defs, n), file, prov, fs_true()),
+        exists|i: int| is_best(bucket(v.defs, n), p_same(file, fs_true()), i) && avail_pick(v, file, n) == Some(bucket(v.defs, n)[i]),
+{
+    let ds = bucket(v.defs, n);
+    let p = p_same(file, fs_true());
+    lemma_best_props(ds, p);
+    assert(p(ds[k]));
+}
+
+//@tags C05
+/// the property's sentence for the view: under H3/H4 for every name, the list has exactly one entry per name
 /// that go-to-definition resolves from the file, and the entry is the definition go-to-definition selects
 pub proof fn lemma_C05_view_is_goto(r: Seq<DefV>, v: AvV, file: PV, provf: spec_fn(Seq<char>) -> spec_fn(PV) -> bool, n: Seq<char>)
     requires avail_post(r, v, file),
-        at_most_one_in(bucket(v.defs, n), file), import_tests_agree(v, provf(n), n), pv_has_parent(file) && file.len() > 0,
+        import_tests_agree(v, provf(n), n), pv_has_parent(file) && file.len() > 0,
     ensures
         op_resolve(bucket(v.defs, n), file, provf(n), fs_true()) is Some <==> exists|k: int| 0 <= k < r.len() && (#[trigger] r[k]).name == n,
         forall|k1: int, k2: int| 0 <= k1 < r.len() && 0 <= k2 < r.len() && (#[trigger] r[k1]).name == n && (#[trigger] r[k2]).name == n ==> k1 == k2,
@@ -124,14 +137,27 @@ pub proof fn lemma_C05_c_ff_same_file(ds: Seq<DefV>, file: PV, cfile: PV, prov: 
 
 // ---- canaries: must FAIL.  They document known differences between the features (findings), so a canary that
 // verifies means either the defect was fixed (update the statement) or the contracts became vacuous.
-/// F-05a: without H1 (same-file redefinition) the view shows the FIRST definition, goto the LAST
-pub proof fn canary_C05_agreement_without_H1(v: AvV, file: PV, prov: spec_fn(PV) -> bool, n: Seq<char>)
+/// F-05a (repaired): the OLD behaviour of the view — the FIRST same-file definition (avail_pick_first) — does not
+/// agree with go-to-definition under the hypotheses the agreement lemma has now (H3, H4).  If this verifies, the
+/// agreement lemma no longer distinguishes "first" from "last of maximal line".
+pub proof fn canary_C05_first_same_file_agrees_with_goto(v: AvV, file: PV, prov: spec_fn(PV) -> bool, n: Seq<char>)
     requires import_tests_agree(v, prov, n), pv_has_parent(file) && file.len() > 0,
-    ensures avail_pick(v, file, n) == op_resolve(bucket(v.defs, n), file, prov, fs_true())
+    ensures avail_pick_first(v, file, n) == op_resolve(bucket(v.defs, n), file, prov, fs_true())
 {
     lemma_walks_agree(bucket(v.defs, n), file.drop_last(), v, prov, n);
     lemma_best_props(bucket(v.defs, n), p_same(file, fs_true()));
     lemma_first_match_in(bucket(v.defs, n), p_same(file, fs_true()));
+}
+/// F-05a (repaired), on the L1 contract: an entry of a list satisfying the postcondition proved for
+/// compute_available_fixtures need not be what the OLD behaviour offered (the first same-file definition) — the
+/// contract tells "first" from "last of maximal line"
+pub proof fn canary_avail_post_entry_is_first_same_file(r: Seq<DefV>, v: AvV, file: PV, k: int)
+    requires avail_post(r, v, file), 0 <= k < r.len(),
+    ensures avail_pick_first(v, file, r[k].name) == Some(r[k])
+{
+    assert(avail_pick(v, file, r[k].name) == Some(r[k]));
+    lemma_best_props(bucket(v.defs, r[k].name), p_same(file, fs_true()));
+    lemma_first_match_in(bucket(v.defs, r[k].name), p_same(file, fs_true()));
 }
 /// F-05b: resolve_fixture_for_file is NOT go-to-definition's resolution (first instead of last same-file
 /// definition, imports ignored, fallback to a definition that is not visible from the file), even for a file
@@ -144,13 +170,28 @@ pub proof fn canary_C05_ff_is_goto(ds: Seq<DefV>, file: PV, prov: spec_fn(PV) ->
     lemma_ff_best_props(ds, ff_cand(file));
     lemma_walk_result(ds, file.drop_last(), prov, fs_true());
 }
+/// F-05b, same-file part alone: without "at most once" resolve_fixture_for_file (FIRST same-file definition) and
+/// go-to-definition (last of maximal line) differ even when the file defines the name
+pub proof fn canary_C05_ff_same_file_without_unique(ds: Seq<DefV>, file: PV, cfile: PV, prov: spec_fn(PV) -> bool, k: int)
+    requires 0 <= k < ds.len(), ds[k].file == file,
+    ensures op_resolve_ff(ds, file, cfile) == op_resolve(ds, file, prov, fs_true())
+{
+    lemma_best_props(ds, p_same(file, fs_true()));
+    lemma_first_match_in(ds, p_same(file, fs_true()));
+}
 /// a file without a parent directory: the view still offers plugin / third-party fixtures, goto resolves nothing
 pub proof fn canary_C05_agreement_without_parent(v: AvV, file: PV, prov: spec_fn(PV) -> bool, n: Seq<char>)
-    requires at_most_one_in(bucket(v.defs, n), file), import_tests_agree(v, prov, n),
+    requires import_tests_agree(v, prov, n),
     ensures avail_pick(v, file, n) == op_resolve(bucket(v.defs, n), file, prov, fs_true())
 {
-    lemma_unique_first_is_best(bucket(v.defs, n), p_same(file, fs_true()));
     if pv_has_parent(file) && file.len() > 0 { lemma_walks_agree(bucket(v.defs, n), file.drop_last(), v, prov, n); }
+}
+/// the import hypothesis H3 is needed: with an arbitrary `prov` the two walks differ
+pub proof fn canary_C05_agreement_without_H3(v: AvV, file: PV, prov: spec_fn(PV) -> bool, n: Seq<char>)
+    requires pv_has_parent(file) && file.len() > 0,
+    ensures avail_pick(v, file, n) == op_resolve(bucket(v.defs, n), file, prov, fs_true())
+{
+    lemma_first_true_is_head(bucket(v.defs, n));
 }
 /// vacuity guard for the L1 contract: the postcondition does not make every list acceptable
 pub proof fn canary_avail_post_any(r: Seq<DefV>, v: AvV, file: PV)
